@@ -659,6 +659,7 @@ Proof.
   destruct o as [p v ts|d ts order|d]; cbn in Hw, Hother.
   - destruct (target_ok p && star_free p) eqn:Hok; cbn in Hw; [|discriminate].
     apply andb_true_iff in Hok as [Hok1 Hok2].
+    destruct (Nat.eqb (List.length p) 1); cbn in Hw; [discriminate|].
     rewrite Hag in Hw. cbn in Hw.
     destruct (agree_on st p) eqn:Hagp; cbn in Hw; [|discriminate].
     destruct (tlookup p (st_tree st)) as [l|] eqn:Hl.
@@ -2152,7 +2153,7 @@ Proof.
   intros Hs Hr. destruct (reachable_Inv _ _ _ _ Hs Hr) as [G _]. revert G.
   unfold step. cbn. destruct (nth_error (st_feeds st) w) as [[|]|] eqn:Hw; try discriminate.
   destruct (may_lock st w (target_of p)); [|discriminate].
-  destruct (negb (target_ok p && star_free p)); [discriminate|].
+  destruct (negb _); [discriminate|].
   destruct (h_agree h && negb (agree_on st p)); [discriminate|].
   assert (Hlt : (w < List.length (st_feeds st))%nat) by (apply nth_error_Some; congruence).
   assert (PF : forall st1 l sb, In (ILeaf l) (feed_of st1 w) -> leaf_path st1 l = Some p ->
